@@ -1,8 +1,7 @@
 SPECIFICATION Spec
 CONSTANTS
-  Mode = "full1"
-  Inits <- Inits1Q
-  MaxDepth = 1
+  Inits <- InitsT3
+  ChainDepth = 3
   ChainFull = FALSE
   Dump = TRUE
 INVARIANT RefSound
